@@ -293,6 +293,7 @@ pub fn compare_view(buf: &[u8], msg: &Message, view: &RefView, check_prop: &str)
     types.extend(view.all.iter().map(|a| a.ty));
     types.sort();
     types.dedup();
+    let types_sorted = types.clone();
     for ty in types {
         let first = want.iter().find(|w| w.0 == ty);
         let at = AttributeType::new(ty);
@@ -312,6 +313,72 @@ pub fn compare_view(buf: &[u8], msg: &Message, view: &RefView, check_prop: &str)
             return Err(Violation::new(prop, clause, "has_attribute", format!("has_attribute({ty:#06x}) = {h}, expected {}", first.is_some())));
         }
     }
+    // the same answers in whatever order an application asks: once more in descending type order and
+    // once in an order that alternates between the ends (a lookup must not depend on the one before it)
+    let mut orders: Vec<Vec<u16>> = vec![types_sorted.iter().rev().copied().collect()];
+    {
+        let (mut lo, mut hi, mut alt) = (0usize, types_sorted.len(), vec![]);
+        while lo < hi {
+            hi -= 1;
+            alt.push(types_sorted[hi]);
+            if lo < hi {
+                alt.push(types_sorted[lo]);
+                lo += 1;
+            }
+        }
+        orders.push(alt);
+    }
+    for order in orders {
+        for ty in order {
+            let first = want.iter().find(|w| w.0 == ty);
+            let at = AttributeType::new(ty);
+            let h = msg.has_attribute(at);
+            let r = msg.raw_attribute(at);
+            let hidden = view.all.iter().any(|a| a.ty == ty) && first.is_none();
+            let ending = ty == MI || ty == MI256 || ty == FP;
+            let (prop, clause) = if hidden || (ending && check_prop != "C02") { ("C10", "lookup") } else { ("C02", "lookup_first_match") };
+            let ok = match (first, &r) {
+                (None, None) => true,
+                (Some(w), Some(a)) => a.get_type().value() == ty && *a.value == *w.1,
+                _ => false,
+            };
+            if !ok || h != first.is_some() {
+                return Err(Violation::new(prop, clause, if hidden { "hidden_attribute_returned_after_other_lookups" } else { "lookup_depends_on_earlier_lookups" }, format!("after other lookups on the same message, raw_attribute({ty:#06x}) = {:?} and has_attribute = {h}; expected {}", r.map(|a| (a.get_type().value(), a.value.len())), if first.is_some() { "the first exposed attribute of that type" } else { "None / false" })));
+            }
+        }
+    }
+    // typed lookups: `attribute::<T>()` is the typed decoder applied to the *first* exposed attribute
+    // of T's type (C02: "lookups return the first match") — whether or not that one decodes
+    macro_rules! typed_first {
+        ($t:ident) => {{
+            let ty = <$t>::TYPE.value();
+            let first = want.iter().find(|w| w.0 == ty);
+            let got = msg.attribute::<$t>();
+            let hidden = view.all.iter().any(|a| a.ty == ty) && first.is_none();
+            let ending = ty == MI || ty == MI256 || ty == FP;
+            let (prop, clause) = if hidden || (ending && check_prop != "C02") { ("C10", "lookup") } else { ("C02", "lookup_first_match") };
+            match first {
+                None => {
+                    if let Ok(v) = &got {
+                        return Err(Violation::new(prop, clause, "typed_lookup", format!("attribute::<{}>() = Ok({v:?}) although no attribute of type {ty:#06x} is exposed", stringify!($t))));
+                    }
+                }
+                Some(w) => {
+                    let raw = RawAttribute::new(<$t>::TYPE, w.1);
+                    let want_t = <$t>::from_raw(&raw);
+                    let same = match (&got, &want_t) {
+                        (Ok(a), Ok(b)) => format!("{a:?}") == format!("{b:?}"),
+                        (Err(_), Err(_)) => true,
+                        _ => false,
+                    };
+                    if !same {
+                        return Err(Violation::new(prop, clause, "typed_lookup", format!("attribute::<{}>() = {:?}, but the typed decoder on the first exposed attribute of type {ty:#06x} ({} value bytes) gives {:?}", stringify!($t), got.as_ref().map(|v| format!("{v:?}")).map_err(|e| format!("{e:?}")), w.1.len(), want_t.as_ref().map(|v| format!("{v:?}")).map_err(|e| format!("{e:?}")))));
+                    }
+                }
+            }
+        }};
+    }
+    each_typed!(typed_first);
     Ok(())
 }
 
